@@ -167,6 +167,22 @@ def run(ctx):
                     ctx.count(f'low_nofile.{what}.{r.cls}'); ctx.case(('low-nofile', driver, nf, what), True, sample=dict(limit=nf, driver=driver, what=what, exit=r.cls) if nf == 6 and driver == 'parfile' else None)
                     if r.cls == 'hang':
                         ctx.violation(f'low-nofile-{driver}-{nf}-{what}.json', dict(argv=argv, nofile=nf), f'C07: xcp did not finish within {LIMIT}s with RLIMIT_NOFILE={nf} ({driver}, {what})')
+        # a source file that ANOTHER process holds under an exclusive advisory lock for the whole run (a daemon's lock file): a copy
+        # needs no lock and must not wait for one
+        import subprocess, sys as _sys
+        d = base + '/locked'; shutil.rmtree(d, ignore_errors=True); os.makedirs(d + '/S')
+        open(d + '/S/service.lock', 'wb').write(b'pid 1\n'); open(d + '/S/data', 'wb').write(b'd' * 5000)
+        holder = subprocess.Popen([_sys.executable, '-c', 'import fcntl,sys,time; f=open(sys.argv[1]); fcntl.flock(f, fcntl.LOCK_EX); print("held", flush=True); time.sleep(120)', d + '/S/service.lock'], stdout=subprocess.PIPE)
+        try:
+            holder.stdout.readline()
+            for driver in ('parfile', 'parblock'):
+                shutil.rmtree(d + '/D', ignore_errors=True)
+                r = scen.run_xcp(d, ['-r', '--driver', driver, 'S', 'D'], timeout=LIMIT)
+                ctx.count(f'locked_source.{driver}.{r.cls}'); ctx.case(('locked-source', driver), True)
+                if r.cls == 'hang':
+                    ctx.violation(f'locked-source-{driver}.json', dict(driver=driver), f'C07: xcp did not finish within {LIMIT}s copying a file another process holds an exclusive flock on ({driver})')
+        finally:
+            holder.kill(); holder.wait()
         # FREE-RUNNING (no supervisor): thousands of small files of varied sizes with many workers reporting progress at the same
         # instant — contention on the progress bookkeeping must not stop a thread from finishing
         d = base + '/many'; shutil.rmtree(d, ignore_errors=True); os.makedirs(d + '/S')
